@@ -224,6 +224,8 @@ def check(ctx: Ctx) -> None:
     _check_numpy_names(ctx)
     _check_merged_once(ctx)
     _check_combine_per_combination(ctx)
+    from ..idioms import check_exact_matching
+    check_exact_matching(ctx, 'C06.g', ['pyphysim/simulations/parameters.py', RES], floor=40)
 
 
 def _stored_attrs(nodes, sn: str, model=None, cls=None, depth: int = 0) -> Set[str]:
